@@ -5,8 +5,17 @@ the repository's own test_solver.py drives it), so no compilation is needed.
 The oracle is a set of invariants over the recorded history, stated in the
 property, with a small model of the documented damping factor and of the
 "current" nominal step.
+
+The real ``Solver.dump_output`` runs (only the module-level ``dump`` it hands
+the data to is replaced by a recorder), every option is supplied either
+through the constructor or through its setter, and the history of one Solver
+object may contain a start at t0 != 0 / count != 0 (a restart), documented
+setters called from a pre/post-step callback in the middle of the run, and a
+second ``solve()`` after the final time was moved.
 """
+import inspect
 import math
+import os
 
 from hypothesis import strategies as st
 
@@ -14,23 +23,54 @@ from vlib.hyp import Failure, Outcome, Stats, search, derive_seed
 
 RULE = ('cases = (dt, tf [commensurate / non-commensurate / dt>tf, magnitude '
         '1e-6..1e3], pfreq, sorted output_at_times [random, on step times, '
-        'clustered closer than dt, = tf, > tf, inside the first step], '
-        'n_damp, max_steps, adaptive on/off with a drawn sequence of '
-        'returned steps or None). Non-trivial = >= 3 steps and (a requested '
-        'time strictly inside a nominal step, or damping and adaptivity both '
-        'active); distinct by case hash.')
+        'clustered closer than dt, = tf, > tf, inside the first step, exact '
+        'duplicates, <= start time], n_damp, max_steps (incl. no step at '
+        'all), adaptive on/off with a drawn sequence of returned steps or '
+        'None) x how every option reaches the Solver (constructor keyword / '
+        'setter, list / tuple / ndarray, int / float / numpy scalars) x '
+        'output flags, file name, callbacks (0-3 of each), command handler, '
+        'reorder_freq, serial or single-rank parallel x history (start at '
+        't0, count0 != 0; set_print_freq / set_max_steps / '
+        'set_output_at_times / set_final_time / set_time_step / set_cfl / '
+        'set_adaptive_timestep called from a '
+        'pre/post-step callback; a second solve() after set_final_time). '
+        'Non-trivial = >= 3 steps and (a requested time strictly inside a '
+        'nominal step, or damping and adaptivity both active); distinct by '
+        'case hash.')
 ASSUMPTIONS = [
     'a requested time within 4*eps*tf*count of a step time counts as reached',
     'the recorded dt at dumps taken when the next nominal step would pass '
     'tf carries no claim (final-step shortening; accepted by the pinned '
     'tests)',
-    'requested times closer than 1e-9*tf to 0, tf or one another are not '
-    'generated (indistinguishable to the documented epsilon)',
+    'requested times closer than 1e-9*tf to the start, tf or one another '
+    '(exact duplicates excepted) are not generated (indistinguishable to '
+    'the documented epsilon)',
+    'setters called in the middle of a run: a new list of output times / a '
+    'new tf only contains times at or after the end of the step in '
+    'progress, tf is only moved while the step in progress does not reach '
+    'the old tf, set_time_step only shortens an unshortened, undamped step '
+    'from a pre-step callback (anything else by-passes the landing logic '
+    'and has no documented meaning; such draws are skipped and counted)',
+    'a second solve() is only made when no shortened step is pending and '
+    'damping is over (counted otherwise)',
+    'single-rank parallel runs (stand-in manager returning its argument) '
+    'are only generated when the integrator always proposes a step',
 ]
-ESSENTIAL_LABELS = {'all': ['out:inside_first_step', 'out:cluster',
-                            'out:on_step', 'out:eq_tf', 'adaptive', 'damped',
-                            'noncommensurate', 'dt>tf',
-                            'landing']}
+ESSENTIAL_LABELS = {'all': [
+    'out:inside_first_step', 'out:cluster', 'out:on_step', 'out:eq_tf',
+    'adaptive', 'damped', 'noncommensurate', 'dt>tf', 'landing',
+    # audit extensions
+    'out:dup', 'out:before_start', 'how:tf_setter', 'how:dt_setter',
+    'how:outs_setter', 'how:pfreq_kwarg', 'how:max_steps_kwarg',
+    'how:n_damp_setter', 'how:adaptive_setter', 'how:cfl_setter',
+    'outs_form:tuple', 'outs_form:ndarray', 'int_args', 'np_float',
+    'flags:detailed', 'flags:all_particles', 'flags:compress',
+    'flags:disabled', 'fname', 'cb:none', 'cb:many', 'cmd', 'reorder',
+    'parallel', 'parallel:two_ranks', 'show_default', 'max_steps_zero', 't0', 'count0',
+    'count0_in_damping', 'mid:pfreq', 'mid:max_steps', 'mid:outs',
+    'mid:tf', 'mid:tf_now', 'mid:dt', 'mid:outs_landed', 'mid:cfl',
+    'mid:adaptive', 'dump_override', 'second',
+    'second:extended', 'second:after_max_steps', 'tf_extended_due']}
 
 EPS = 2.0 ** -52 * 2
 
@@ -40,12 +80,14 @@ class NonTermination(Exception):
 
 
 class StandIn(object):
-    def __init__(self, seq, log, guard):
+    def __init__(self, seq, log, guard, state, np_float=False):
         self.seq = seq
         self.i = 0
         self.log = log
         self.guard = guard
         self.nsteps = 0
+        self.state = state
+        self.np_float = np_float
 
     def initial_acceleration(self, t, dt):
         self.log.append(('init_acc', float(t), float(dt)))
@@ -62,8 +104,67 @@ class StandIn(object):
         else:
             v = self.seq[self.i % len(self.seq)]
             self.i += 1
-        self.log.append(('cts', float(dt), v))
+        try:
+            c = float(cfl)
+        except Exception:
+            c = repr(cfl)
+        self.log.append(('cts', float(dt), v, c))
+        if v is not None:
+            self.state['nominal'] = v
+            if self.np_float:
+                import numpy
+                return numpy.float64(v)
         return v
+
+
+class FakeArray(object):
+    def __init__(self, name, log):
+        self.name = name
+        self.log = log
+
+    def set_time(self, t):
+        self.log.append(('set_time', self.name, float(t)))
+
+
+class FakeNNPS(object):
+    def __init__(self, log):
+        self.log = log
+        self.pending = []
+
+    def spatially_order_particles(self, i):
+        self.pending.append(int(i))
+
+    def update(self):
+        self.log.append(('reorder', list(self.pending)))
+        self.pending = []
+
+
+class FakePM(object):
+    """update_time_steps is a MIN reduction over the ranks; the other rank
+    always proposes `other` (None: there is no other rank)."""
+
+    def __init__(self, log, state, other):
+        self.log = log
+        self.state = state
+        self.other = other
+
+    def update_time_steps(self, dt):
+        if self.other is not None and self.other < dt:
+            dt = self.other
+        self.log.append(('pm', float(dt)))
+        self.state['nominal'] = float(dt)
+        return dt
+
+    def update(self):
+        pass
+
+
+class FakeComm(object):
+    def __init__(self, log):
+        self.log = log
+
+    def barrier(self):
+        self.log.append(('barrier',))
 
 
 def fac(count, n_damp):
@@ -73,8 +174,24 @@ def fac(count, n_damp):
     return 1.0
 
 
+def _mults(draw, n):
+    out = []
+    for _ in range(n):
+        k = draw(st.sampled_from(['now', 'frac', 'int', 'far']))
+        if k == 'now':
+            out.append(0.0)
+        elif k == 'frac':
+            out.append(draw(st.floats(0.002, 0.998)))
+        elif k == 'int':
+            out.append(float(draw(st.integers(1, 5))))
+        else:
+            out.append(draw(st.integers(1, 5)) + draw(st.floats(0.002,
+                                                                0.998)))
+    return out
+
+
 @st.composite
-def case_strategy(draw, big):
+def case_strategy(draw, big, mode='basic'):
     scale = 10.0 ** draw(st.integers(-6, 3))
     dt = scale * draw(st.sampled_from([1.0, 1.0, 0.1, 0.3, 0.7, 2.5]))
     nmax = 3000 if big else 300
@@ -86,104 +203,493 @@ def case_strategy(draw, big):
     n = draw(st.integers(1, nmax))
     if draw(st.integers(0, 3)) > 0:
         n = min(n, 40)
-    if kind == 'comm':
-        tf = n * dt
-    elif kind == 'noncomm':
-        tf = (n + draw(st.floats(0.001, 0.999))) * dt
-    else:
-        tf = dt * draw(st.floats(0.01, 0.99))
-        n = 1
-    pfreq = draw(st.sampled_from([1, 2, 3, 5, 7, 10, 100, 1000]))
+    hist = mode == 'hist'
+    # ---- start state (a restart: t and count as load_output() leaves them)
+    t0, count0 = 0.0, 0
     n_damp = draw(st.sampled_from([0, 0, 0, 1, 2, 5, 50]))
+    want = draw(st.sampled_from(['t0', 'mid', 'second', 'any'])) if hist \
+        else None
+    if hist and (want == 't0' or draw(st.integers(0, 3)) == 0):
+        if draw(st.booleans()):
+            t0 = dt * draw(st.integers(1, 50))
+        else:
+            t0 = dt * draw(st.floats(0.05, 50.0))
+        ck = draw(st.sampled_from(['zero', 'damp', 'any']))
+        if ck == 'damp' and n_damp > 1:
+            count0 = draw(st.integers(1, n_damp - 1))
+        elif ck == 'any':
+            count0 = draw(st.sampled_from([1, 3, 7, 50, 1000]))
+    span_unit = dt
+    if kind == 'comm':
+        tf = t0 + n * dt
+    elif kind == 'noncomm':
+        tf = t0 + (n + draw(st.floats(0.001, 0.999))) * dt
+    else:
+        tf = t0 + dt * draw(st.floats(0.01, 0.99))
+        n = 1
+    span = tf - t0
+    pfreq = draw(st.sampled_from([1, 2, 3, 5, 7, 10, 100, 1000, 4, 6,
+                                  10 ** 6]))
     # output times
     outs = []
     kinds = []
     for _ in range(draw(st.integers(0, 8))):
         k = draw(st.sampled_from(['frac', 'frac', 'on_step', 'cluster',
-                                  'eq_tf', 'beyond', 'inside_first_step']))
+                                  'eq_tf', 'beyond', 'inside_first_step',
+                                  'dup', 'before_start']))
         if k == 'frac':
-            T = tf * draw(st.floats(0.001, 0.999))
+            T = t0 + span * draw(st.floats(0.001, 0.999))
         elif k == 'on_step':
-            T = dt * draw(st.integers(1, max(1, n)))
+            T = t0 + dt * draw(st.integers(1, max(1, n)))
         elif k == 'cluster' and outs:
             T = outs[-1] + dt * draw(st.floats(1e-3, 0.9))
+        elif k == 'dup' and outs:
+            T = outs[-1]
         elif k == 'eq_tf':
             T = tf
         elif k == 'beyond':
-            T = tf * draw(st.floats(1.01, 3.0))
+            T = tf + span * draw(st.floats(0.01, 2.0))
+        elif k == 'before_start':
+            T = draw(st.sampled_from([0.0, t0, -t0, -tf,
+                                      t0 - dt * 0.5, -dt]))
+            if T > t0:
+                T = t0
         else:
             k = 'inside_first_step'
-            T = min(dt, tf) * draw(st.floats(0.01, 0.99))
+            T = t0 + min(dt, span) * draw(st.floats(0.01, 0.99))
         outs.append(T)
         kinds.append(k)
     seq = []
     if adaptive:
+        wide = draw(st.integers(0, 5)) == 0
         for _ in range(draw(st.integers(0, 6))):
             if draw(st.integers(0, 5)) == 0:
                 seq.append(None)
+            elif wide and draw(st.booleans()):
+                seq.append(dt * 10.0 ** draw(st.floats(1.5, 4.0)))
             else:
                 seq.append(dt * 10.0 ** draw(st.floats(-1.5, 1.5)))
     max_steps = None
     if draw(st.integers(0, 7)) == 0:
-        max_steps = draw(st.integers(1, max(1, n)))
+        max_steps = count0 + draw(st.integers(0, max(1, n)))
     order = sorted(range(len(outs)), key=lambda i: outs[i])
     souts, skinds = [], []
     for i in order:
         T = outs[i]
-        if souts and abs(T - souts[-1]) < 1e-7 * tf:
+        if souts and abs(T - souts[-1]) < 1e-7 * tf and not (
+                T == souts[-1] and 'dup' in (kinds[i], skinds[-1])):
+            continue
+        if abs(T - t0) < 1e-7 * tf and T != t0:
             continue
         souts.append(T)
         skinds.append(kinds[i])
-    return dict(dt=dt, tf=tf, pfreq=pfreq, n_damp=n_damp, outs=souts,
+    # KNOWN DEFECT (reported by the C10 audit, replay
+    # /var/tmp/audC10/dup_outputs.json): a value held twice makes the solver
+    # step over the next requested time when that one is less than a step
+    # away; such lists are not generated (the duplicate is dropped, counted)
+    maxnom = 2.0 * max([dt] + [v for v in seq if v is not None])
+    xdup = 0
+    i = 0
+    while i + 1 < len(souts):
+        if souts[i] == souts[i + 1]:
+            later = [T for T in souts[i + 2:] if T > souts[i]]
+            if later and later[0] - souts[i] < 1.01 * maxnom:
+                del souts[i + 1], skinds[i + 1]
+                xdup += 1
+                continue
+        i += 1
+    case = dict(dt=dt, tf=tf, pfreq=pfreq, n_damp=n_damp, outs=souts,
                 out_kinds=skinds, adaptive=adaptive, seq=seq,
                 max_steps=max_steps, kind=kind)
+    if xdup:
+        case['xdup'] = xdup
+    # ---- how the options reach the solver
+    two = lambda a, b: draw(st.sampled_from([a, a, b]))   # noqa: E731
+    how = dict(tf=two('ctor', 'setter'), dt=two('ctor', 'setter'),
+               n_damp=two('ctor', 'setter'),
+               adaptive=two('ctor', 'setter'), cfl=two('ctor', 'setter'),
+               outs=two('ctor', 'setter'),
+               outs_form=draw(st.sampled_from(['list', 'list', 'tuple',
+                                               'ndarray'])),
+               pfreq=two('setter', 'kwarg'),
+               max_steps=two('setter', 'kwarg'),
+               flags=two('setter', 'kwarg'),
+               reorder=two('setter', 'kwarg'))
+    case['how'] = how
+    case['cfl'] = draw(st.sampled_from([0.3, 0.3, 0.05, 0.5, 1.0, 0.123]))
+    case['show'] = draw(st.sampled_from([False, False, None, True]))
+    case['np_float'] = draw(st.booleans())
+    if dt == int(dt) and tf == int(tf) and t0 == int(t0) and \
+            draw(st.booleans()):
+        case['int_args'] = True
+    flags = {}
+    if draw(st.integers(0, 2)) == 0:
+        flags = dict(detailed=draw(st.booleans()),
+                     only_real=draw(st.booleans()),
+                     compress=draw(st.booleans()),
+                     disabled=draw(st.integers(0, 5)) == 0)
+    case['flags'] = flags
+    case['fname'] = draw(st.sampled_from([None, None, 'run_a', 'x']))
+    case['outdir'] = draw(st.sampled_from([None, None, 'out', 'a/b_c']))
+    case['ncb'] = [draw(st.sampled_from([1, 1, 0, 2, 3])),
+                   draw(st.sampled_from([1, 1, 0, 2, 3]))]
+    case['cmd'] = draw(st.sampled_from([None, None, 'default', 1, 2, 5]))
+    case['cmd_kw'] = draw(st.booleans())
+    case['reorder_freq'] = draw(st.sampled_from([0, 0, 0, 1, 3, 10]))
+    case['nparr'] = draw(st.sampled_from([0, 0, 1, 2]))
+    if not flags and draw(st.integers(0, 3)) == 0:
+        # dump_output overridden by the user (as the pinned tests do)
+        case['dump_override'] = True
+    par = None
+    if draw(st.integers(0, 9)) == 0:
+        if None not in seq and (seq or not adaptive):
+            par = draw(st.sampled_from(['collected', 'distributed',
+                                        'default']))
+            if adaptive and draw(st.booleans()):
+                case['par_other'] = dt * 10.0 ** draw(st.floats(-1.0, 1.0))
+        else:
+            # KNOWN (audit, /var/tmp/audC10/parallel_no_criterion.py): in
+            # parallel "no criterion" becomes a step of 1e20; not driven
+            case['xpar'] = 1
+    case['parallel'] = par
+    if t0 or count0:
+        case['t0'] = t0
+        case['count0'] = count0
+    # ---- setters called from callbacks in the middle of the run
+    mids = []
+    if hist and (want == 'mid' or draw(st.integers(0, 2)) == 0):
+        for _ in range(draw(st.integers(1, 3))):
+            op = draw(st.sampled_from(
+                ['pfreq', 'max_steps', 'outs', 'outs', 'tf', 'tf', 'dt',
+                 'cfl'] + (['cfl', 'adaptive', 'adaptive'] if adaptive
+                           else [])))
+            m = dict(op=op, at=count0 + draw(st.integers(0, min(n, 12))),
+                     where=draw(st.sampled_from(['pre', 'post'])))
+            if op == 'pfreq':
+                m['v'] = draw(st.sampled_from([1, 2, 3, 5, 1000]))
+            elif op == 'max_steps':
+                m['v'] = draw(st.integers(0, 5))
+            elif op == 'outs':
+                m['keep'] = draw(st.booleans())
+                m['ms'] = _mults(draw, draw(st.integers(0, 4)))
+                m['form'] = draw(st.sampled_from(['list', 'ndarray',
+                                                  'tuple']))
+            elif op == 'tf':
+                m['m'] = _mults(draw, 1)[0]
+            elif op == 'cfl':
+                m['v'] = draw(st.sampled_from([0.1, 0.25, 0.9]))
+            elif op == 'adaptive':
+                m['v'] = draw(st.sampled_from([False, False, True]))
+            else:
+                m['where'] = 'pre'
+                m['f'] = draw(st.floats(0.2, 0.95))
+            mids.append(m)
+    if mids:
+        case['mid'] = mids
+        for w, i in (('pre', 0), ('post', 1)):
+            if any(m['where'] == w for m in mids) and case['ncb'][i] == 0:
+                case['ncb'][i] = 1
+    # ---- a second solve() on the same object
+    if hist and (want == 'second' or draw(st.integers(0, 3)) == 0):
+        sec = dict(ext=draw(st.sampled_from(['none', 'frac', 'int', 'far',
+                                             'far'])),
+                   m=draw(st.floats(0.002, 0.998)),
+                   k=draw(st.integers(1, 8)),
+                   dt=draw(st.sampled_from([None, 1.0, 1.0, 0.5, 2.0, 0.3])),
+                   more=draw(st.sampled_from([None, 0, 1, 3, 10 ** 6])),
+                   outs=_mults(draw, draw(st.integers(0, 3)))
+                   if draw(st.booleans()) else None)
+        case['second'] = sec
+    return case
+
+
+def _as_form(vals, form):
+    import numpy
+    if form == 'tuple':
+        return tuple(vals)
+    if form == 'ndarray':
+        return numpy.array(vals, dtype=float)
+    return list(vals)
+
+
+def _dedup_sorted(vals, scale):
+    out = []
+    for v in sorted(vals):
+        if out and abs(v - out[-1]) < 1e-7 * scale:
+            continue
+        out.append(v)
+    return out
 
 
 def run_solver(case):
-    from pysph.solver.solver import Solver
+    import numpy
+    import pysph.solver.solver as S
+    Solver = S.Solver
     log = []
+    H = case.get('how') or {}
     dt, tf = case['dt'], case['tf']
+    t0 = case.get('t0', 0.0)
+    count0 = case.get('count0', 0)
+    if case.get('int_args'):
+        dt, tf, t0 = int(dt), int(tf), int(t0)
     seq = case['seq'] if case['adaptive'] else []
-    vals = [v for v in seq if v is not None] + [dt]
+    vals = [v for v in seq if v is not None] + [case['dt']]
+    if case.get('par_other'):
+        vals.append(case['par_other'])
     min_nom = min(vals)
-    guard = int(3 * (tf / min_nom + case['n_damp'] * 400 + len(case['outs'])
-                     + 2) + 200)
-    integ = StandIn(seq, log, guard)
-    solver = Solver(integrator=integ, tf=tf, dt=dt,
-                    n_damp=case['n_damp'],
-                    adaptive_timestep=case['adaptive'],
-                    output_at_times=list(case['outs']))
-    solver.set_print_freq(case['pfreq'])
-    if case['max_steps'] is not None:
-        solver.set_max_steps(case['max_steps'])
-    solver.particles = []
-    solver.acceleration_evals = []
+    for m in case.get('mid') or []:
+        if m['op'] == 'dt':
+            min_nom *= m['f']
+    sec = case.get('second')
+    if sec and sec.get('dt'):
+        min_nom = min(min_nom, sec['dt'] * case['dt'])
+    span = 2 * (case['tf'] - case.get('t0', 0.0)) + 40 * case['dt']
+    nouts = len(case['outs']) + 30
+    guard = int(3 * (span / min_nom + case['n_damp'] * 400 + nouts + 2)
+                + 200)
+    state = dict(nominal=float(case['dt']))
+    integ = StandIn(seq, log, guard, state, case.get('np_float', False))
+    kw = dict(integrator=integ)
+    post = []       # setter calls made after construction
 
-    def dump():
-        sd = solver._get_solver_data()
+    def opt(name, key, value, setter, default='ctor'):
+        if H.get(name, default) in ('ctor', 'kwarg'):
+            kw[key] = value
+        else:
+            post.append((setter, value))
+    opt('tf', 'tf', tf, 'set_final_time')
+    opt('dt', 'dt', dt, 'set_time_step')
+    opt('n_damp', 'n_damp', case['n_damp'], 'set_n_damp')
+    opt('adaptive', 'adaptive_timestep', case['adaptive'],
+        'set_adaptive_timestep')
+    if 'cfl' in case:
+        opt('cfl', 'cfl', case['cfl'], 'set_cfl')
+    opt('outs', 'output_at_times',
+        _as_form(case['outs'], H.get('outs_form', 'list')),
+        'set_output_at_times')
+    opt('pfreq', 'pfreq', case['pfreq'], 'set_print_freq', 'setter')
+    if case['max_steps'] is not None:
+        opt('max_steps', 'max_steps', case['max_steps'], 'set_max_steps',
+            'setter')
+    fl = case.get('flags') or {}
+    if fl:
+        opt('flags', 'detailed_output', fl['detailed'],
+            'set_output_printing_level', 'setter')
+        opt('flags', 'output_only_real', fl['only_real'],
+            'set_output_only_real', 'setter')
+        opt('flags', 'compress_output', fl['compress'],
+            'set_compress_output', 'setter')
+        if fl['disabled']:
+            opt('flags', 'disable_output', True, 'set_disable_output',
+                'setter')
+    if case.get('reorder_freq'):
+        opt('reorder', 'reorder_freq', case['reorder_freq'],
+            'set_reorder_freq', 'setter')
+    comm = pm = None
+    if case.get('parallel'):
+        comm, pm = FakeComm(log), FakePM(log, state, case.get('par_other'))
+        kw['in_parallel'] = True
+        kw['comm'] = comm
+    solver = Solver(**kw)
+    for name, value in post:
+        getattr(solver, name)(value)
+    if case.get('fname'):
+        solver.set_output_fname(case['fname'])
+    if case.get('outdir'):
+        solver.set_output_directory(case['outdir'])
+    if pm is not None:
+        solver.set_parallel_manager(pm)
+        if case['parallel'] != 'default':
+            solver.set_parallel_output_mode(case['parallel'])
+    arrays = [FakeArray('p%d' % i, log) for i in range(case.get('nparr', 0))]
+    solver.particles = arrays
+    solver.acceleration_evals = []
+    solver.nnps = FakeNNPS(log)
+    if t0 or count0:
+        solver.t = t0
+        solver.count = count0
+
+    real_dump = S.dump
+    sig = inspect.signature(real_dump)
+
+    def rec_dump(*a, **k):
+        d = sig.bind(*a, **k)
+        d.apply_defaults()
+        d = d.arguments
+        sd = d['solver_data']
         log.append(('dump', float(solver.t), int(solver.count),
-                    float(sd['dt'])))
-    solver.dump_output = dump
-    solver.add_pre_step_callback(
-        lambda s: log.append(('pre', float(s.t), int(s.count))))
-    solver.add_post_step_callback(
-        lambda s: log.append(('post', float(s.t), int(s.count))))
+                    float(sd['dt']), float(solver.tf),
+                    dict(fname=str(d['filename']), t=float(sd['t']),
+                         count=int(sd['count']),
+                         detailed=d['detailed_output'],
+                         only_real=d['only_real'], compress=d['compress'],
+                         comm=(None if d['mpi_comm'] is None else
+                               ('comm' if d['mpi_comm'] is comm
+                                else 'other')),
+                         particles=d['particles'] is solver.particles)))
+
+    mids = case.get('mid') or []
+    unit = float(case['dt'])
+
+    def apply_mid(s, where):
+        k = int(s.count)
+        for m in mids:
+            if m['where'] != where or m['at'] != k:
+                continue
+            t_next = float(s.t) + float(s.dt)
+            op = m['op']
+            if op == 'pfreq':
+                s.set_print_freq(m['v'])
+                log.append(('mid', 'pfreq', where, m['v']))
+            elif op == 'max_steps':
+                v = k + 1 + m['v']
+                s.set_max_steps(v)
+                log.append(('mid', 'max_steps', where, v))
+            elif op == 'cfl':
+                s.set_cfl(m['v'])
+                log.append(('mid', 'cfl', where, m['v']))
+            elif op == 'adaptive':
+                s.set_adaptive_timestep(m['v'])
+                log.append(('mid', 'adaptive', where, m['v']))
+            elif op == 'outs':
+                old = [float(x) for x in numpy.asarray(s.output_at_times)] \
+                    if m['keep'] else []
+                new = [t_next + mm * unit for mm in m['ms']]
+                keep = []
+                tfv = float(s.tf)
+                for T in sorted(new):
+                    # not closer than 1e-7 tf to another time or to tf
+                    # (exact coincidence is fine)
+                    if T in keep or T in old or any(
+                            T != o and abs(T - o) < 1e-7 * tfv
+                            for o in old + keep + [tfv]):
+                        continue
+                    keep.append(T)
+                lst = sorted(old + keep)
+                s.set_output_at_times(_as_form(lst, m['form']))
+                log.append(('mid', 'outs', where, lst, keep))
+            elif op == 'tf':
+                full = fac(k, case['n_damp']) * state['nominal']
+                if float(s.tf) - (float(s.t) + full) > 1e-6 * float(s.tf):
+                    v = t_next + m['m'] * unit
+                    s.set_final_time(v)
+                    log.append(('mid', 'tf', where, float(v),
+                                m['m'] == 0.0))
+                else:
+                    log.append(('midskip', 'tf'))
+            elif op == 'dt':
+                if k >= case['n_damp'] and s._prev_dt is None and \
+                        float(s.dt) >= state['nominal'] * (1 - 1e-12):
+                    v = float(s.dt) * m['f']
+                    s.set_time_step(v)
+                    state['nominal'] = v
+                    log.append(('mid', 'dt', where, v))
+                else:
+                    log.append(('midskip', 'dt'))
+
+    def mk(kind, i):
+        def cb(s):
+            log.append((kind, i, s is solver))
+            if i == 0:
+                apply_mid(s, kind)
+        return cb
+    ncb = case.get('ncb', [1, 1])
+    for i in range(ncb[0]):
+        solver.add_pre_step_callback(mk('pre', i))
+    for i in range(ncb[1]):
+        solver.add_post_step_callback(mk('post', i))
+    cmd = case.get('cmd')
+    if cmd is not None:
+        def handler(s):
+            log.append(('cmd', int(s.count), s is solver))
+        if cmd == 'default':
+            solver.set_command_handler(handler)
+        elif case.get('cmd_kw'):
+            solver.set_command_handler(handler, command_interval=cmd)
+        else:
+            solver.set_command_handler(handler, cmd)
+
+    def go(**told):
+        # what the solver was told (never what it remembers of it)
+        told.update(t0=float(solver.t), c0=int(solver.count),
+                    nominal=float(state['nominal']))
+        log.append(('begin', told))
+        if case.get('show', False) is None:
+            solver.solve()
+        else:
+            solver.solve(show_progress=case.get('show', False))
+        log.append(('end', float(solver.t), int(solver.count)))
+
+    if case.get('dump_override'):
+        def user_dump():
+            sd = solver._get_solver_data()
+            log.append(('dump', float(solver.t), int(solver.count),
+                        float(sd['dt']), float(solver.tf), None))
+        solver.dump_output = user_dump
     err = None
+    S.dump = rec_dump
     try:
-        solver.solve(show_progress=False)
+        go(tf=float(case['tf']), pfreq=case['pfreq'],
+           max_steps=case['max_steps'], outs=list(case['outs']))
+        if sec:
+            if solver._prev_dt is not None or \
+                    solver._damping_factor != 1.0:
+                log.append(('midskip', 'second'))
+            else:
+                t_now = float(solver.t)
+                hit = solver.count >= solver.max_steps
+                ext = sec['ext']
+                tf2 = float(solver.tf)
+                base = max(t_now, tf2)
+                if ext == 'frac':
+                    tf2 = base + sec['m'] * unit
+                elif ext == 'int':
+                    tf2 = base + sec['k'] * unit
+                elif ext == 'far':
+                    tf2 = base + (sec['k'] + sec['m']) * unit
+                if sec['dt'] is None:
+                    # keeps the last (possibly tiny) step: bounded work
+                    tf2 = min(tf2, base + 300 * float(solver.dt))
+                told = {}
+                if ext != 'none':
+                    solver.set_final_time(tf2)
+                    told['tf'] = tf2
+                if sec['dt'] is not None:
+                    v = sec['dt'] * unit
+                    solver.set_time_step(v)
+                    state['nominal'] = v
+                else:
+                    state['nominal'] = float(solver.dt)
+                if sec['more'] is not None:
+                    solver.set_max_steps(int(solver.count) + sec['more'])
+                    told['max_steps'] = int(solver.count) + sec['more']
+                if sec['outs'] is not None:
+                    lst = _dedup_sorted(
+                        [t_now + mm * unit for mm in sec['outs']], tf2)
+                    lst = [T for T in lst
+                           if abs(T - tf2) >= 1e-7 * tf2 and
+                           (T == t_now or abs(T - t_now) >= 1e-7 * tf2)]
+                    solver.set_output_at_times(lst)
+                    told['outs'] = lst
+                log.append(('second', ext != 'none', bool(hit)))
+                integ.guard = integ.nsteps + int(3 * (
+                    (40 * unit + abs(float(solver.tf) - t_now)) /
+                    min(min_nom, state['nominal']) + nouts + 2) + 200)
+                go(**told)
     except NonTermination:
         err = 'nontermination'
-    return solver, log, err
+    finally:
+        S.dump = real_dump
+    return solver, log, err, dict(comm=comm)
 
 
 def check(case):
-    dt0, tf = case['dt'], case['tf']
     n_damp = case['n_damp']
     klass = dict(adaptive=case['adaptive'], damped=n_damp > 0)
     labels = []
     fails = []
     try:
-        solver, log, err = run_solver(case)
+        solver, log, err, aux = run_solver(case)
     except Exception as ex:
         return [Failure('Solver.solve', 'exception', repr(ex), klass)], \
             labels, False
@@ -197,116 +703,85 @@ def check(case):
         k.update(kw)
         fails.append(Failure('Solver.solve', kind, detail, k))
 
-    steps = [e for e in log if e[0] == 'step']
-    dumps = [e for e in log if e[0] == 'dump']
-    count = len(steps)
-    tol_t = 4 * EPS * tf * max(count, 1)
-    hit_max = case['max_steps'] is not None and count >= case['max_steps']
-    # ---- termination at tf
-    if hit_max:
-        labels.append('max_steps_hit')
-        if count != case['max_steps']:
-            F('max_steps', 'took %d steps with max_steps=%d' % (
-                count, case['max_steps']))
-    elif abs(solver.t - tf) > tol_t:
-        F('final_time', 't_end=%r tf=%r after %d steps' % (solver.t, tf,
-                                                          count))
-    if solver.count != count:
-        F('count', 'solver.count=%d but %d steps' % (solver.count, count))
-    # ---- time strictly increasing, t = sum(dt)
-    t = 0.0
-    nominal = dt0
-    pending = None      # value returned by compute_time_step since last step
-    k = 0
-    ev_order = []
-    inside_hit = False
-    landing = False
-    step_ivals = []
-    nominal_at = {}     # step index -> nominal used for the bound
+    # ---- split the history into solve() segments
+    segs = []
     for e in log:
-        if e[0] == 'cts':
-            if e[2] is not None:
-                nominal = e[2]
-        elif e[0] == 'step':
-            ts, ds = e[1], e[2]
-            if not (ds > 0.0):
-                F('nonpositive_step', 'step %d has dt=%r' % (k, ds))
-            if abs(ts - t) > tol_t:
-                F('time_sum', 'step %d starts at %r but sum of steps is %r'
-                  % (k, ts, t))
-            allowed = fac(k, n_damp) * nominal
-            if ds > allowed * (1 + 1e-9) + tol_t:
-                F('step_exceeds', 'step %d: dt=%r > allowed %r (nominal %r '
-                  'x damping %r)' % (k, ds, allowed, nominal,
-                                     fac(k, n_damp)))
-            if ds < allowed * (1 - 1e-9):
-                landing = True
-            step_ivals.append((ts, ts + ds, allowed))
-            nominal_at[k] = nominal
-            t = ts + ds
-            k += 1
-        if e[0] in ('pre', 'step', 'post'):
-            ev_order.append(e[0])
-    if ev_order != ['pre', 'step', 'post'] * count:
-        F('callbacks', 'pre/step/post do not alternate once per step: %r'
-          % ev_order[:12])
-    # ---- dumps: start and end
-    if not dumps or dumps[0][1] != 0.0 or dumps[0][2] != 0:
-        F('dump_start', 'no output at the start: %r' % (dumps[:1],))
-    if not dumps or abs(dumps[-1][1] - solver.t) > 0 or \
-            dumps[-1][2] != count:
-        F('dump_end', 'no output at the end: %r' % (dumps[-1:],))
-    if log and log[-1][0] != 'dump':
-        F('dump_end', 'last event is not the final dump')
-    dump_counts = set(d[2] for d in dumps)
-    for c in range(1, count + 1):
-        if c % case['pfreq'] == 0 and c not in dump_counts:
-            F('dump_pfreq', 'no output at iteration %d (pfreq %d)' % (
-                c, case['pfreq']))
-            break
-    # ---- requested times
-    for T, kd in zip(case['outs'], case['out_kinds']):
-        labels.append('out:' + kd)
-        if not (T > 1e-9 * tf and T < tf * (1 - 1e-9)):
-            continue
-        if hit_max and T > solver.t:
-            continue
-        got = any(abs(d[1] - T) <= tol_t for d in dumps)
-        passed = [(a, b) for (a, b, al) in step_ivals
-                  if a < T - tol_t and b > T + tol_t]
-        for (a, b, al) in step_ivals:
-            if a < T - tol_t and a + al > T + tol_t:
-                inside_hit = True
-        first = bool(step_ivals) and T < step_ivals[0][2] * (1 - 1e-9)
-        if passed:
-            F('output_time_stepped_over',
-              'requested time %r lies strictly inside step [%r, %r]' % (
-                  T, passed[0][0], passed[0][1]),
-              first_step=bool(first and passed[0][0] == 0.0))
-        elif not got:
-            F('output_time_missing', 'no output written at requested time '
-              '%r' % T, first_step=bool(first))
-    # ---- recorded dt is the nominal one
-    # replay the model to know the nominal at each dump
-    nominal = dt0
-    kk = 0
-    for e in log:
-        if e[0] == 'cts':
-            if e[2] is not None:
-                nominal = e[2]
-        elif e[0] == 'step':
-            kk += 1
-        elif e[0] == 'dump':
-            td, cd, dd = e[1], e[2], e[3]
-            nxt = fac(kk, n_damp) * nominal
-            exempt = (td + nxt) > tf * (1 - 1e-9) - tol_t or \
-                abs(td - tf) <= tol_t or (hit_max and cd == count)
-            if exempt:
-                continue
-            if abs(dd - nominal) > 1e-9 * nominal:
-                F('recorded_dt', 'output at t=%r (iteration %d) records '
-                  'dt=%r, nominal step is %r' % (td, cd, dd, nominal))
-                break
+        if e[0] == 'begin':
+            segs.append(dict(cfg=e[1], ev=[], end=None))
+        elif e[0] == 'end':
+            segs[-1]['end'] = e
+        elif e[0] == 'second':
+            labels.append('second')
+            if e[1]:
+                labels.append('second:extended')
+            if e[2]:
+                labels.append('second:after_max_steps')
+        elif e[0] == 'midskip':
+            labels.append('skipped:' + e[1])
+        elif segs and segs[-1]['end'] is None:
+            segs[-1]['ev'].append(e)
+    nontrivial = False
+    first_kinds = dict(zip(case['outs'], case['out_kinds']))
+    carried = {}
+    for si, seg in enumerate(segs):
+        cfg = dict(carried)
+        cfg.update(seg['cfg'])
+        seg['cfg'] = cfg
+        if si and cfg['t0'] != segs[si - 1]['end'][1]:
+            F('resume', 'second solve() starts at t=%r, the first ended at '
+              '%r' % (cfg['t0'], segs[si - 1]['end'][1]))
+        nt, carried = check_segment(case, seg, si, F, labels,
+                                    first_kinds if si == 0 else {}, aux)
+        nontrivial = nontrivial or nt
+    # ---- labels of the configuration
+    H = case.get('how') or {}
+    for name in ('tf', 'dt', 'outs', 'n_damp', 'adaptive', 'cfl'):
+        if H.get(name) == 'setter':
+            labels.append('how:%s_setter' % name)
+    if H.get('pfreq') == 'kwarg':
+        labels.append('how:pfreq_kwarg')
+    if H.get('max_steps') == 'kwarg' and case['max_steps'] is not None:
+        labels.append('how:max_steps_kwarg')
+    if H.get('outs_form') in ('tuple', 'ndarray') and case['outs']:
+        labels.append('outs_form:' + H['outs_form'])
+    if case.get('int_args'):
+        labels.append('int_args')
+    if case.get('np_float') and case['adaptive'] and case['seq']:
+        labels.append('np_float')
+    fl = case.get('flags') or {}
+    if fl.get('detailed'):
+        labels.append('flags:detailed')
+    if fl and not fl.get('only_real'):
+        labels.append('flags:all_particles')
+    if fl.get('compress'):
+        labels.append('flags:compress')
+    if fl.get('disabled'):
+        labels.append('flags:disabled')
+    if case.get('fname') or case.get('outdir'):
+        labels.append('fname')
+    ncb = case.get('ncb', [1, 1])
+    if 0 in ncb:
+        labels.append('cb:none')
+    if max(ncb) > 1:
+        labels.append('cb:many')
+    if case.get('parallel'):
+        labels.append('parallel')
+        if case.get('par_other'):
+            labels.append('parallel:two_ranks')
+    if case.get('dump_override'):
+        labels.append('dump_override')
+    if case.get('show', False) is None:
+        labels.append('show_default')
+    if case.get('xdup'):
+        labels.append('excluded:dup_followed')
+    if case.get('xpar'):
+        labels.append('excluded:parallel_no_criterion')
+    if case.get('t0'):
+        labels.append('t0')
+    if case.get('count0'):
+        labels.append('count0')
+        if case['count0'] < n_damp:
+            labels.append('count0_in_damping')
     if case['adaptive'] and case['seq']:
         labels.append('adaptive')
     if n_damp > 0:
@@ -315,11 +790,290 @@ def check(case):
         labels.append('noncommensurate')
     if case['kind'] == 'dt>tf':
         labels.append('dt>tf')
+    return fails, labels, nontrivial
+
+
+def check_segment(case, seg, si, F, labels, kinds, aux):
+    cfg, ev, end = seg['cfg'], seg['ev'], seg['end']
+    n_damp = case['n_damp']
+    t0, c0 = cfg['t0'], cfg['c0']
+    final_t, final_count = end[1], end[2]
+    steps_ev = [e for e in ev if e[0] == 'step']
+    count = len(steps_ev)
+    tfs = [cfg['tf']] + [e[3] for e in ev if e[0] == 'mid' and e[1] == 'tf']
+    tfmax = max(tfs)
+    tol_t = 4 * EPS * tfmax * max(final_count, 1)
+    fl = case.get('flags') or {}
+    disabled = bool(fl.get('disabled'))
+    ncb = case.get('ncb', [1, 1])
+    cfl = cfg.get('cfl', case.get('cfl', 0.3))
+    # ---- walk the history with the model of the documented state
+    t = t0
+    k = c0
+    nominal = cfg['nominal']
+    tf_cur = cfg['tf']
+    pf = cfg['pfreq']
+    ms = cfg['max_steps']
+    versions = [dict(j0=0, outs=list(cfg['outs']))]
+    steps = []          # (start, end, allowed, tf when the step was fixed)
+    tf_det = tf_cur
+    dumps = []
+    need_pf = []
+    need_cmd = []
+    need_reorder = []
+    open_step = None
+    landing = False
+    seq_ev = []
+    group = []
+    rec_fail = False
+    cmd = case.get('cmd')
+    cmd_iv = 1 if cmd == 'default' else cmd
+    rf = case.get('reorder_freq', 0)
+
+    def close():
+        # the decisions taken after a step and its post-step callbacks
+        c = open_step
+        if c % pf == 0:
+            need_pf.append(c)
+        if cmd_iv and c % cmd_iv == 0:
+            need_cmd.append(c)
+        if rf and c % rf == 0:
+            need_reorder.append(c)
+
+    for e in ev:
+        typ = e[0]
+        if open_step is not None and typ not in ('post', 'mid'):
+            close()
+            open_step = None
+            tf_det = tf_cur
+        if typ == 'cts':
+            if e[2] is not None:
+                nominal = e[2]
+            if e[3] != cfl:
+                F('cfl_argument', 'compute_time_step got cfl=%r, the solver '
+                  'was given cfl=%r' % (e[3], cfl))
+        elif typ == 'pm':
+            nominal = e[1]
+        elif typ == 'mid':
+            op = e[1]
+            labels.append('mid:' + op)
+            if op == 'pfreq':
+                pf = e[3]
+            elif op == 'max_steps':
+                ms = e[3]
+            elif op == 'outs':
+                versions.append(dict(
+                    j0=len(steps) + (1 if e[2] == 'pre' else 0),
+                    outs=list(e[3]), new=list(e[4])))
+            elif op == 'tf':
+                tf_cur = e[3]
+                if e[4]:
+                    labels.append('mid:tf_now')
+            elif op == 'dt':
+                nominal = e[3]
+            elif op == 'cfl':
+                cfl = e[3]
+        elif typ == 'step':
+            ts, ds = e[1], e[2]
+            j = len(steps)
+            if not (ds > 0.0):
+                F('nonpositive_step', 'step %d has dt=%r' % (j, ds))
+            if abs(ts - t) > tol_t:
+                F('time_sum', 'step %d starts at %r but sum of steps is %r'
+                  % (j, ts, t))
+            allowed = fac(k, n_damp) * nominal
+            if ds > allowed * (1 + 1e-9) + tol_t:
+                F('step_exceeds', 'step %d: dt=%r > allowed %r (nominal %r '
+                  'x damping %r)' % (j, ds, allowed, nominal,
+                                     fac(k, n_damp)))
+            if ds < allowed * (1 - 1e-9):
+                landing = True
+            steps.append((ts, ts + ds, allowed, tf_det))
+            t = ts + ds
+            k += 1
+            open_step = k
+        elif typ == 'dump':
+            td, cd, dd, tfd, info = e[1], e[2], e[3], e[4], e[5]
+            dumps.append(e)
+            nxt = fac(k, n_damp) * nominal
+            hit = ms is not None and final_count >= ms
+            exempt = (td + nxt) > tf_cur * (1 - 1e-9) - tol_t or \
+                abs(td - tf_cur) <= tol_t or (hit and cd == final_count)
+            if not exempt and not rec_fail and \
+                    abs(dd - nominal) > 1e-9 * nominal:
+                rec_fail = True
+                F('recorded_dt', 'output at t=%r (iteration %d) records '
+                  'dt=%r, nominal step is %r' % (td, cd, dd, nominal))
+            bad = []
+            if info is None:
+                continue
+            if info['t'] != td or info['count'] != cd:
+                bad.append('solver_data t=%r count=%r at t=%r count=%r' % (
+                    info['t'], info['count'], td, cd))
+            exp_dir = case.get('outdir') or 'Solver_output'
+            exp_name = case.get('fname') or 'Solver'
+            d_, b_ = os.path.split(info['fname'])
+            tail = b_.rsplit('_', 1)
+            if d_ != exp_dir or not b_.startswith(exp_name + '_') or \
+                    len(tail) != 2 or not tail[1].isdigit() or \
+                    int(tail[1]) != cd:
+                bad.append('file name %r for iteration %d of %s/%s' % (
+                    info['fname'], cd, exp_dir, exp_name))
+            want = dict(detailed=bool(fl.get('detailed', False)),
+                        only_real=bool(fl.get('only_real', True)),
+                        compress=bool(fl.get('compress', False)))
+            for key, v in want.items():
+                if bool(info[key]) != v:
+                    bad.append('%s=%r passed to dump, solver was told %r'
+                               % (key, info[key], v))
+            wcomm = 'comm' if case.get('parallel') in ('collected',
+                                                       'default') else None
+            if info['comm'] != wcomm:
+                bad.append('mpi_comm=%r, expected %r' % (info['comm'],
+                                                         wcomm))
+            if not info['particles']:
+                bad.append('particles passed are not solver.particles')
+            if bad:
+                F('dump_arguments', '; '.join(bad))
+        if typ in ('pre', 'step', 'post'):
+            seq_ev.append(typ)
+            if typ != 'step':
+                group.append((typ, e[1]))
+                if not e[2]:
+                    F('callbacks', '%s-step callback was not passed the '
+                      'solver' % typ)
+    if open_step is not None:
+        close()
+    hit_max = ms is not None and final_count >= ms
+    # ---- termination at tf
+    if hit_max:
+        labels.append('max_steps_hit')
+        if final_count != max(ms, c0):
+            F('max_steps', 'ended at iteration %d with max_steps=%d '
+              '(started at %d)' % (final_count, ms, c0))
+        if count == 0 and si == 0:
+            labels.append('max_steps_zero')
+    elif abs(final_t - tf_cur) > tol_t:
+        F('final_time', 't_end=%r tf=%r after %d steps' % (final_t, tf_cur,
+                                                          count))
+    if final_count != c0 + count:
+        F('count', 'solver.count=%d but %d steps from %d' % (
+            final_count, count, c0))
+    exp_seq = (['pre'] * ncb[0] + ['step'] + ['post'] * ncb[1]) * count
+    if seq_ev != exp_seq:
+        F('callbacks', 'pre/step/post do not alternate once per step: %r'
+          % seq_ev[:12])
+    else:
+        per = ncb[0] + ncb[1]
+        for j in range(count):
+            g = group[j * per:(j + 1) * per]
+            if sorted(g) != [('post', i) for i in range(ncb[1])] + \
+                    [('pre', i) for i in range(ncb[0])]:
+                F('callbacks', 'step %d: callbacks run %r' % (j, g))
+                break
+    # ---- dumps: start and end, every pfreq-th iteration
+    if disabled:
+        if dumps:
+            F('dump_disabled', 'output written although it was disabled')
+    else:
+        if not dumps or dumps[0][1] != t0 or dumps[0][2] != c0:
+            F('dump_start', 'no output at the start: %r' % (dumps[:1],))
+        if not dumps or abs(dumps[-1][1] - final_t) > 0 or \
+                dumps[-1][2] != final_count:
+            F('dump_end', 'no output at the end: %r' % (dumps[-1:],))
+        last = [e for e in ev if e[0] not in ('barrier', 'set_time')]
+        if last and last[-1][0] != 'dump':
+            F('dump_end', 'last event is not the final dump')
+        dump_counts = set(d[2] for d in dumps)
+        for c in need_pf:
+            if c not in dump_counts:
+                F('dump_pfreq', 'no output at iteration %d (pfreq then in '
+                  'force)' % c)
+                break
+    # ---- requested times, per list in force
+    inside_hit = False
+    nst = len(steps)
+    for vi, v in enumerate(versions):
+        j0 = v['j0']
+        lastv = vi == len(versions) - 1
+        for T in v['outs']:
+            kd = kinds.get(T) if vi == 0 else None
+            if kd:
+                labels.append('out:' + kd)
+        if j0 >= nst:
+            continue
+        j1 = nst - 1 if lastv else min(versions[vi + 1]['j0'] - 1, nst - 1)
+        if j1 < j0:
+            continue
+        lo = steps[j0][0]
+        hi = final_t if lastv else steps[j1][0]
+        for T in v['outs']:
+            if any(abs(T - x) <= 1e-9 * x for x in tfs):
+                continue
+            if j0 == 0:
+                if not (T > t0 + 1e-9 * tfmax):
+                    continue
+            elif T < lo - tol_t:
+                continue
+            # the step that reaches T and the tf in force when it was fixed
+            js = [j for j in range(j0, j1 + 1) if steps[j][1] >= T - tol_t]
+            if not js:
+                continue
+            if not (T < steps[js[0]][3] * (1 - 1e-9)):
+                continue
+            if hit_max and lastv and T > final_t:
+                continue
+            if T > case['tf']:
+                labels.append('tf_extended_due')
+            if vi > 0 and T in v.get('new', ()):
+                labels.append('mid:outs_landed')
+            got = any(abs(d[1] - T) <= tol_t for d in dumps)
+            passed = [(a, b) for (a, b, al, _) in steps[j0:j1 + 1]
+                      if a < T - tol_t and b > T + tol_t]
+            for (a, b, al, _) in steps[j0:j1 + 1]:
+                if a < T - tol_t and a + al > T + tol_t:
+                    inside_hit = True
+            first = j0 == 0 and (T - t0) < steps[0][2] * (1 - 1e-9)
+            if passed:
+                F('output_time_stepped_over',
+                  'requested time %r lies strictly inside step [%r, %r]' % (
+                      T, passed[0][0], passed[0][1]),
+                  first_step=bool(first and passed[0][0] == t0))
+            elif not got and T <= hi + tol_t and not disabled:
+                F('output_time_missing', 'no output written at requested '
+                  'time %r' % T, first_step=bool(first))
+    # ---- documented extras: command handler, reordering
+    if cmd is not None:
+        got_cmd = [e[1] for e in ev if e[0] == 'cmd']
+        if got_cmd != need_cmd:
+            F('command_handler', 'handler called at iterations %r, expected '
+              '%r (interval %r)' % (got_cmd[:8], need_cmd[:8], cmd_iv))
+        if not all(e[2] for e in ev if e[0] == 'cmd'):
+            F('command_handler', 'handler not passed the solver')
+        if need_cmd:
+            labels.append('cmd')
+    first_step_at = next((i for i, e in enumerate(ev) if e[0] == 'step'),
+                         len(ev))
+    re_after = [e[1] for e in ev[first_step_at:] if e[0] == 'reorder']
+    if not rf:
+        if any(e[0] == 'reorder' for e in ev):
+            F('reorder', 'particles re-ordered with reorder_freq=0')
+    else:
+        nparr = case.get('nparr', 0)
+        if len(re_after) != len(need_reorder) or any(
+                g != list(range(nparr)) for g in re_after):
+            F('reorder', '%d re-orderings %r after the first step, expected '
+              '%d of all %d arrays (reorder_freq %d)' % (
+                  len(re_after), re_after[:4], len(need_reorder), nparr,
+                  rf))
+        if need_reorder:
+            labels.append('reorder')
     if landing:
         labels.append('landing')
-    nontrivial = count >= 3 and (inside_hit or (
+    nt = count >= 3 and (inside_hit or (
         n_damp > 0 and case['adaptive'] and bool(case['seq'])))
-    return fails, labels, nontrivial
+    return nt, dict(tf=tf_cur, pfreq=pf, max_steps=ms, cfl=cfl,
+                    outs=list(versions[-1]['outs']))
 
 
 def execute(case):
@@ -330,13 +1084,16 @@ def execute(case):
 def plan(ctx):
     n = 24000 if ctx['tier'] == 'quick' else 1000000
     k = 16
-    return [dict(name='loop-%02d' % i, max_examples=n // k,
-                 big=(ctx['tier'] != 'quick')) for i in range(k)]
+    big = ctx['tier'] != 'quick'
+    return [dict(name='loop-%02d' % i, max_examples=n // k, big=big,
+                 mode='basic') for i in range(8)] + \
+        [dict(name='hist-%02d' % i, max_examples=n // k, big=big,
+              mode='hist') for i in range(8)]
 
 
 def run_shard(spec, ctx):
     stats = Stats()
-    search(case_strategy(spec['big']), execute,
+    search(case_strategy(spec['big'], spec.get('mode', 'basic')), execute,
            derive_seed(ctx.seed, 'C10', spec['name']),
            spec['max_examples'], stats, shrink=True)
     return stats.result()
